@@ -36,6 +36,9 @@ pub struct CompressCase {
     pub metadata: Vec<MetaArg>,
     /// output name has no extension / several dots (temp name is derived from it)
     pub out_name: u8,
+    /// a file of this many bytes already sits at the temp path (left by an earlier compress that failed or was killed)
+    #[serde(default)]
+    pub stale_tmp: Option<u32>,
 }
 
 #[derive(Debug, Clone)]
@@ -390,6 +393,13 @@ fn run_compress(c: &CompressCase, rec: &mut CaseRec) -> Result<(), String> {
         if c.force_over_existing {
             l2::write_file(&work.join(out_name), b"previous archive content");
         }
+        // the CLI derives the temp path from the output path: Path::with_extension(output, ".tmp")
+        let tmp_rel = Path::new(out_name).with_extension(".tmp");
+        if let Some(n) = c.stale_tmp {
+            let mut junk = Vec::new();
+            SplitMix(n as u64 ^ 0x7e).fill(&mut junk, n as usize);
+            l2::write_file(&work.join(&tmp_rel), &junk);
+        }
         let mut args = l2::compress_args(&c.cfg, if c.stdin { None } else { Some("in.src") }, out_name, c.force_over_existing);
         let out = args.pop().unwrap();
         for (i, m) in c.metadata.iter().enumerate() {
@@ -423,8 +433,11 @@ fn run_compress(c: &CompressCase, rec: &mut CaseRec) -> Result<(), String> {
         let added: Vec<&String> = after.difference(&before).collect();
         let removed: Vec<&String> = before.difference(&after).collect();
         let want_added: Vec<String> = if c.force_over_existing { vec![] } else { vec![format!("work/{}", out_name)] };
-        if added.iter().map(|s| s.to_string()).collect::<Vec<_>>() != want_added || !removed.is_empty() {
-            return Err(format!("directory listing: successful compress added {:?} / removed {:?}; expected exactly the archive {:?}", added, removed, want_added));
+        // a stale file at the temp path is this run's temporary chunk file too: it is gone afterwards; nothing else is
+        let tmp_listed = format!("work/{}", tmp_rel.display());
+        let want_removed: Vec<String> = if c.stale_tmp.is_some() { vec![tmp_listed.clone()] } else { vec![] };
+        if added.iter().map(|s| s.to_string()).collect::<Vec<_>>() != want_added || removed.iter().map(|s| s.to_string()).collect::<Vec<_>>() != want_removed {
+            return Err(format!("directory listing: successful compress added {:?} / removed {:?}; expected exactly the archive {:?} added and {:?} removed", added, removed, want_added, want_removed));
         }
         if use_strace {
             let text = std::fs::read_to_string(&so).map_err(|x| format!("harness: strace output: {}", x))?;
@@ -441,7 +454,7 @@ fn run_compress(c: &CompressCase, rec: &mut CaseRec) -> Result<(), String> {
                 return Err(format!("syscalls: compress wrote to {:?}, which is neither the archive nor a temporary file it created and removed", p));
             }
             for p in &fx.removed {
-                if !fx.created.contains(p) {
+                if !fx.created.contains(p) && !(c.stale_tmp.is_some() && *p == abs(&work, &tmp_rel.display().to_string())) {
                     return Err(format!("syscalls: compress removed {:?} which it did not create", p));
                 }
             }
@@ -510,8 +523,9 @@ fn compress_strategy() -> impl Strategy<Value = CompressCase> {
         any::<bool>(),
         crate::props::c11::metadata_strategy(true),
         0u8..4,
+        prop_oneof![3 => Just(None), 1 => (0u32..60_000).prop_map(Some)],
     )
-        .prop_map(|(source, cfg, stdin, force_over_existing, metadata, out_name)| CompressCase { source, cfg, stdin, force_over_existing, metadata, out_name })
+        .prop_map(|(source, cfg, stdin, force_over_existing, metadata, out_name, stale_tmp)| CompressCase { source, cfg, stdin, force_over_existing, metadata, out_name, stale_tmp })
 }
 
 impl Prop for C16 {
